@@ -109,6 +109,24 @@ impl ServerFx {
         base_threads: usize,
     ) -> Result<ServerFx, String> {
         let handle = kv.get_handle();
+        Self::start_inner(Some(kv), handle, storage, max_connections, workers, base_threads)
+    }
+
+    /// A server over a handle of a store that somebody else owns (and drops after `stop`).
+    /// `base_threads` is the thread count of the process before this call.
+    pub fn start_on_handle(handle: Handle, max_connections: usize, workers: usize, base_threads: usize) -> Result<ServerFx, String> {
+        let storage = handle.clone();
+        Self::start_inner(None, handle, storage, max_connections, workers, base_threads)
+    }
+
+    fn start_inner<KV: bitcask::storage::KeyValueStorage + Sync>(
+        kv: Option<Bitcask>,
+        handle: Handle,
+        storage: KV,
+        max_connections: usize,
+        workers: usize,
+        base_threads: usize,
+    ) -> Result<ServerFx, String> {
         for _attempt in 0..200 {
             let port = next_port();
             let (ready_tx, ready_rx) = std::sync::mpsc::channel::<Result<(), String>>();
@@ -159,7 +177,7 @@ impl ServerFx {
                     return Ok(ServerFx {
                         port,
                         handle,
-                        kv: Some(kv),
+                        kv,
                         shutdown_tx: Some(sd_tx),
                         thread: Some(th),
                         run_returned: returned,
